@@ -34,7 +34,7 @@ CHECKS = {
     ),
     "C18": dict(
         level="exploration",
-        phases=[dict(engine="codec", args=dict(quick=["-budget", "5"], thorough=["-budget", "6"])),
+        phases=[dict(engine="codec", args=dict(quick=["-budget", "5"], thorough=["-budget", "7"])),
                 dict(engine="sess", args=[])],
         deadline=dict(quick=110, thorough=1500),
         rule="for every template unit, every population, every tag t of template ∪ framing ∪ {34}: (i) each String/Raw field takes the values t=, t=1, xt=2, y\\x02t=, =t=; (ii) a decoy field with tag 1t, t1, 9t, t0, t-without-first-digit, t-without-last-digit is placed before / after the genuine fields; (iii) genuine field or group present/absent. The message is built by the harness encoder; Unmarshal (strict and not) must yield exactly the population and ValueByTag must equal the reference whole-tag lookup for every tag. Non-trivial-distinct key: (unit, typed shape, population, kind {plain, decoy-before, decoy-after, taglike-value}, values, decoy).",
@@ -43,14 +43,14 @@ CHECKS = {
     ),
     "C03": dict(
         engine="codec", level="exploration",
-        args=dict(quick=["-bases", "200"], thorough=["-bases", "1200"]),
+        args=dict(quick=["-bases", "200"], thorough=["-bases", "5000"]),
         deadline=dict(quick=110, thorough=1500),
         rule="for each base message (hand-picked + enumerated family, <= 130 bytes) the complete single-damage neighbourhood: every substitution (|m|*255), every interior insertion ((|m|-1)*256), every deletion, every proper prefix; each variant parsed from an exact-capacity slice in strict and non-strict mode; it must be rejected, and whenever the library accepts a byte string the independent integrity validator must accept it too. Non-trivial-distinct key: (base message, damaged position).",
         assumptions=CODEC_ASSUME,
     ),
     "C11": dict(
         engine="codec", level="exploration",
-        args=dict(quick=["-len", "7", "-tokens", "5"], thorough=["-len", "8", "-tokens", "5"]),
+        args=dict(quick=["-len", "7", "-tokens", "4"], thorough=["-len", "8", "-tokens", "5"]),
         deadline=dict(quick=110, thorough=1500),
         rule="(i) every byte string of length <= L over the alphabet {8,9,1,0,3,=,SOH,A} against 5 message types (Heartbeat, Logon, MarketDataRequest with groups nested three deep, a 3-level nested template, a typed flat template), strict and non-strict, plus ValueByTag for 5 tags; (ii) every sequence of <= K tokens over {SOH,=,35,34,10,0,1,2,A, count tags and first-entry tags of the target} framed with a correct BodyLength and CheckSum. A call must return without panic (watchdog: 10 s without progress = hang). Non-trivial-distinct key: the input string (i) / (target, length, index class) (ii).",
         assumptions=CODEC_ASSUME + ["the session-level consequence (no peer message makes the inbound path panic) is exercised by the history explorers of C06/C07/C16, whose alphabets contain damaged and truncated messages, with task-panic capture"],
